@@ -92,17 +92,19 @@ void harness(void)
   /* ---------- reference ---------- */
   case_ok  = (name_kind == 0) || (name_kind == 1 && !((M_ch.flags & ARES_FLAG_DNS0x20) && !q_tcp));
   accepted = alen != 0 && !M_parse_fails && id_match && tq_match && case_ok && !cookie_bad;
-#ifdef KF_stale_conn_reply
-  VP_ASSUME(!(accepted && on_other));
-#endif
+  /* C05: "only if it arrived on the connection the query is currently assigned to".  This single conjunct is a known
+   * finding of the pinned tree (process_answer never compares query->conn with conn); with -DKF_stale_conn_reply ONLY
+   * this assertion is switched off - every other rule below is still checked for stale replies too, treating them as
+   * the code does (as if they had arrived on the assigned connection). */
 #ifdef KFONLY_stale_conn_reply
   VP_ASSUME(accepted && on_other);
 #endif
+#ifndef KF_stale_conn_reply
   if (on_other && accepted) {
-    /* C05: "only if it arrived on the connection the query is currently assigned to" */
     VP_ASSERT(M_cb_count[tok] == 0 && M_cached == 0 && RQ_calls == 0 && ares_array_len(requeue) == 0 && srv->consec_failures == fail0,
               "FINDING stale_conn_reply: a reply arriving on a connection the request is no longer assigned to supplies nothing to it");
   }
+#endif
   nrq = 0;
   for (k = 0; k < RQ_calls; k++)
     if (RQ_query[k] == q) nrq++;
